@@ -10,6 +10,7 @@ import (
 	"encoding/json"
 	"errors"
 	"fmt"
+	"github.com/hashicorp/go-plugin/runner"
 	"hash"
 	"os"
 	"os/exec"
@@ -17,6 +18,7 @@ import (
 	"runtime"
 	"strconv"
 	"sync"
+	"sync/atomic"
 	"testing"
 	"time"
 
@@ -33,6 +35,7 @@ type ckCase struct {
 	FileSize int    `json:"file_size"`
 	FileSeed int    `json:"file_seed"`
 	History  string `json:"history"` // "", "tamper-after-ok" (same SecureConfig reused after the file changed in place), "second-client"
+	Launch   string `json:"launch"`  // "cmd" (default) or "runner": SecureConfig together with a RunnerFunc
 }
 
 func newHash(name string) hash.Hash {
@@ -151,6 +154,35 @@ func runChecksumCase(c ckCase, dir string) map[string]interface{} {
 		class = "other" // the configured checksum no longer relates to the file's digest
 	}
 	out["class_effective"] = class
+	if c.Launch == "runner" {
+		// a custom runner that would run the file: it must never be asked to
+		var called int32
+		cl := plugin.NewClient(&plugin.ClientConfig{
+			HandshakeConfig: plugin.HandshakeConfig{ProtocolVersion: 1, MagicCookieKey: "K", MagicCookieValue: "V"},
+			Plugins:         plugin.PluginSet{}, SecureConfig: sc, StartTimeout: 400 * time.Millisecond, Logger: hclog.NewNullLogger(),
+			RunnerFunc: func(l hclog.Logger, cmd *exec.Cmd, tmpDir string) (runner.Runner, error) {
+				atomic.AddInt32(&called, 1)
+				os.WriteFile(marker, []byte("runner asked to launch\n"), 0o644)
+				return nil, errors.New("runner: not launching in this test")
+			},
+		})
+		_, err := cl.Start()
+		r := classifyErr(err)
+		if atomic.LoadInt32(&called) > 0 {
+			r = "launch"
+		} else if len(r) > 6 && r[:6] == "other:" {
+			r = "ErrNoFile"
+			out["late_err"] = classifyErr(err)
+		}
+		out["result"] = r
+		_, merr := os.Stat(marker)
+		out["launched"] = merr == nil
+		out["launched_late"] = merr == nil
+		cl.Kill()
+		os.Remove(path)
+		os.Remove(marker)
+		return out
+	}
 	cl, err := startWith(path, sc)
 	out["result"] = classifyErr(err)
 	if err != nil && classifyErr(err) == "launch" {
@@ -213,7 +245,7 @@ func TestChecksumCases(t *testing.T) {
 				o := runChecksumCase(c, dir)
 				cw.end(c.Name)
 				ow.write(map[string]interface{}{"name": c.Name, "hash": c.Hash, "hash_nil": c.HashNil, "class": o["class_effective"], "class_given": c.Class,
-					"pos": c.Pos, "history": c.History, "file_size": c.FileSize, "out": o})
+					"pos": c.Pos, "history": c.History, "file_size": c.FileSize, "launch": launchOf(c), "out": o})
 			}
 		}()
 	}
@@ -222,4 +254,11 @@ func TestChecksumCases(t *testing.T) {
 	}
 	close(ch)
 	wg.Wait()
+}
+
+func launchOf(c ckCase) string {
+	if c.Launch == "" {
+		return "cmd"
+	}
+	return c.Launch
 }
